@@ -8,10 +8,11 @@ if ! git -C /repo diff --quiet; then echo "refusing: /repo has uncommitted chang
 if ! git -C /repo apply --check "$DIR/patch.diff" 2>/dev/null; then
   if git -C /repo apply --3way --check "$DIR/patch.diff" 2>/dev/null; then MODE="--3way"; else echo "PATCH-DOES-NOT-APPLY"; exit 3; fi
 else MODE=""; fi
-git -C /repo apply $MODE "$DIR/patch.diff"
+if ! git -C /repo apply $MODE "$DIR/patch.diff" 2>/dev/null; then git -C /repo reset -q --hard HEAD; echo "PATCH-DOES-NOT-APPLY"; exit 3; fi
+if git -C /repo diff --name-only --diff-filter=U | grep -q .; then git -C /repo reset -q --hard HEAD; echo "PATCH-DOES-NOT-APPLY"; exit 3; fi
 ./vcheck "$PID" --tier "$TIER" > /tmp/seedcheck.out 2>&1
 RC=$?
-git -C /repo checkout -- . ; git -C /repo clean -fdq -e target
+git -C /repo reset -q --hard HEAD; git -C /repo clean -fdq -e target
 grep -E "^VIOLATION" /tmp/seedcheck.out | head -5
 grep -E "^KNOWN-FINDING" /tmp/seedcheck.out | head -3
 echo "exit=$RC"
